@@ -15,6 +15,18 @@ CHECKS = {
    text="The format's chunk rules (needDict/needProps) and the implementation-shaped S/L/U/R/T automaton are both in spec/Lzma2.tla; TLC proves them equivalent on all sequences (Equiv, StateMap) and generates every control-byte sequence up to the bound plus all 256 control bytes after every prefix of length <= 2, each with the predicted verdict (accept / reject at chunk i). Every sequence is realised as a concrete stream (coder state continued across chunks, rotating properties) and fed to the real lzma.Reader2 with two dictionary capacities: it must deliver exactly the legal prefix's bytes and fail at the offending chunk, or end cleanly iff the sequence is legal and ended. Writer side: chunk sequences and sizes parsed from real Writer2 output are validated by TLC (TraceLzma2Writer) including the 64 KiB / 2 MiB limits.",
    note="Trusted: TLC, internal/ref serialiser+decoder (each realised sequence must round-trip through ref with the spec's verdict before the library is judged; disagreement is exit 2). Sequence space exhaustive to length 5 (quick) / 7 (thorough) over 9 representative control bytes.",
    technique="TLA+ format automaton vs code-shaped automaton (TLC equivalence); exhaustive TLC-generated sequences replayed on the real reader; writer traces validated by TLC"),
+ "C01": dict(cat="model_checking", design="§C01",
+   text="TLC generates every Write/Close call history up to the length bound (CallHist; zero-length writes, double Close, Write after Close, with the contract's predicted result per call); each is replayed on the real xz.Writer for rotating boundary configurations together with an exhaustive small-scope family of inputs (all strings <= 6/8 over {00,01,ff}, zero-framed words); call results are judged against the prediction, the sink is read back with xz.Reader and must equal the input followed by a clean end; a sample of the emitted layouts is additionally judged by TLC (XzObs).",
+   note="Trusted: TLC, the seeded payload generators. Exhaustive in call histories (to the bound) and in the small-scope strings; configurations and large payloads are sampled from boundary sets.",
+   technique="TLA+ call-contract generator (TLC exhaustive histories) replayed on the real writer; round trip through the real reader; layouts checked by TLC"),
+ "C02": dict(cat="model_checking", design="§C02",
+   text="Every stream the writer emits over the C01 case space (different seed) is parsed and decoded bit-exactly by the independent reference implementation; the resulting layout record (every header/footer/index field, measured sizes, paddings, CRC and check verdicts, largest match distance, chunk sizes) is judged by TLC against XzFormat.WriterStreamOk: acceptor validity plus the writer obligations (block count and exact block sizes, dictionary code = least code >= DictCap, check id). xz-utils decodes a sample of the streams when installed.",
+   note="Trusted: TLC and spec/XzFormat.tla as a reading of xz-file-format-1.0.4; internal/ref (independent parser/decoder, itself cross-checked against xz-utils output and the frozen corpus). xz-utils is an optional second judge.",
+   technique="reference parser as abstraction function; layouts validated by TLC against the TLA+ format acceptor and writer obligations; liblzma cross-check"),
+ "C03": dict(cat="model_checking", design="§C03",
+   text="Valid streams come from three sources: the frozen xz-utils corpus, fresh xz-utils encodings (when installed) and TLC: LzmaGen (the operation-layer spec in generation mode, simulated with seeded parameters) emits behaviours mixing literal/match/rep0-3/short-rep operations with chunk cuts, state resets, new properties, dictionary resets and raw chunks; each is serialised into a concrete LZMA2 payload and wrapped in container layouts (0-3 blocks, optional size fields, all checks, extra header padding, larger dictionary codes). Every generated stream is first validated at operation level by TLC (TraceLzma: each operation enabled, inside the window, reproducing the plaintext) and by xz-utils; then xz.Reader must return exactly the reference bytes for ReaderConfig.DictCap in {4096, declared, 2x declared}.",
+   note="Trusted: TLC, internal/ref serialiser/decoder (agreement of ref, TLC trace validation and xz-utils is required before the library is judged; disagreement is exit 2).",
+   technique="TLA+ operation-layer spec in generation mode (TLC -simulate) realised as concrete streams; generator traces validated by TLC; real reader compared with reference decoder"),
 }
 NOT_YET = "check not built yet in this round (framework under construction; see DESIGN.md §8 build order)"
 def main():
